@@ -75,8 +75,7 @@ Record wf (op : copyop) (c : cls) (s0 : vals) (n0 : Z) : Prop := {
   wf_vals : forall k v, vget s0 k = Some v ->
               exists d, In (k, d) c /\ conforms (td_type d) v = true /\ (forall x, In x (ids v) -> 0 <= x < n0);
   wf_n0 : 0 <= n0;
-  (* the two listed findings are excluded *)
-  wf_not_all_transient : copies_all op c = false;
+  (* the listed finding (copy.deepcopy copies Any/ReadOnly traits without copy metadata by reference) is excluded *)
   wf_deep_is_deep : forall k d, In (k, d) c -> td_type d = TAny \/ td_type d = TReadOnly ->
                       law_mode op d = CDeep -> effective op d = CDeep
 }.
@@ -89,7 +88,7 @@ Let cv := fst (do_copy op c s0 copy_atom n0).
 Let n1 := snd (do_copy op c s0 copy_atom n0).
 
 Lemma skipped_iff_transient : forall d, skipped op c d = td_transient d.
-Proof. intro d. unfold skipped. rewrite (wf_not_all_transient _ _ _ _ W). simpl. apply andb_true_r. Qed.
+Proof. intro d. reflexivity. Qed.
 
 Lemma cget_of : forall k d, In (k, d) c -> cget c k = Some d.
 Proof. intros. apply cget_in; [exact (wf_nodup _ _ _ _ W) | assumption]. Qed.
@@ -112,8 +111,8 @@ Proof.
     + destruct (wf_vals _ _ _ _ W k v G) as [d' [Hin' [Hc _]]].
       assert (d' = d).
       { pose proof (cget_of _ _ Hin) as A. pose proof (cget_of _ _ Hin') as B. congruence. }
-      subst d'. apply (do_copy_trait op c s0 copy_atom n0 k d v (wf_nodup _ _ _ _ W) Hin); try assumption.
-      rewrite skipped_iff_transient. exact T.
+      subst d'. apply (do_copy_trait op c s0 copy_atom n0 k d v (wf_nodup _ _ _ _ W) Hin); try assumption;
+        try (rewrite skipped_iff_transient; exact T).
   - apply (do_copy_skipped op c s0 copy_atom n0 k d (wf_nodup _ _ _ _ W) Hin). right. exact G.
 Qed.
 
